@@ -280,6 +280,14 @@ func (dsm *DsManager) DeleteDataset(name string) error {
 	defer existingDataset.WriteLock.Unlock()
 	existingDataset.markedForDeletion = true
 
+	// a write to core.Dataset that declares this dataset's public namespaces stores the dataset record again and
+	// publishes the dataset under its name. Around the removal of the record that brings the deleted dataset
+	// back, with all its data. Such a write holds core.Dataset's write lock, so take that too (after the
+	// dataset's own lock: the order every writer uses) and keep it until the meta-entity is deleted as well
+	core := dsm.GetDataset(datasetCore)
+	core.WriteLock.Lock()
+	defer core.WriteLock.Unlock()
+
 	// record we deleted it.
 	// swap map out with new modified copy of map to avoid concurrent read/write issues which can occur if
 	// a user deletes a dataset while this map is iterated over (in garbagecollector for example)
@@ -312,8 +320,7 @@ func (dsm *DsManager) DeleteDataset(name string) error {
 		return err2
 	}
 	entity.IsDeleted = true
-	core := dsm.GetDataset(datasetCore)
-	err = dsm.storeEntity(core, entity)
+	err = core.storeEntitiesLocked([]*Entity{entity}, true)
 	if err != nil {
 		return err
 	}
